@@ -34,6 +34,9 @@ type LSXG struct {
 	CertURL     string
 	Entropy     byte
 	DirectMap   bool
+	// SignerObj, when set, is the Signer object to use (a publisher reusing one
+	// Signer for several exchanges); otherwise a fresh one is built per call.
+	SignerObj *signedexchange.Signer
 
 	// produced by Sign
 	SignedReq  map[string]string // canonical request headers that were signed
@@ -224,7 +227,11 @@ func (l *LSXG) Sign() (*signedexchange.Exchange, error) {
 	if err := e.MiEncodePayload(l.RS); err != nil {
 		return nil, fmt.Errorf("MiEncodePayload: %v", err)
 	}
-	if err := e.AddSignatureHeader(l.Signer()); err != nil {
+	sg := l.SignerObj
+	if sg == nil {
+		sg = l.Signer()
+	}
+	if err := e.AddSignatureHeader(sg); err != nil {
 		return nil, fmt.Errorf("AddSignatureHeader: %v", err)
 	}
 	l.SignedResp, _ = CanonHeader(e.ResponseHeaders)
